@@ -630,3 +630,157 @@ def register_cells(lib):
     @reg(r'^(std::sync::|std::cell::|core::cell::)?Once(Lock|Cell)::<.*>::into_inner$', 'OnceLock::into_inner')
     def _once_into(fr, name, args, ops):
         return args[0][0]
+
+
+def register_ints(lib):
+    """integer inherent methods (unsigned types; the crate has no signed arithmetic outside isize comparisons)"""
+    I = lib.I
+    reg = lib.reg
+    from .mirsym import Obligation
+
+    def width(name):
+        m = re.search(r'<impl (u8|u16|u32|u64|usize)>', name)
+        return parse_type(m.group(1)).bits
+
+    def both(args):
+        return args[0], args[1]
+
+    @reg(r'^core::num::<impl (u8|u16|u32|u64|usize)>::saturating_sub$', 'uN::saturating_sub')
+    def _sat_sub(fr, name, args, ops):
+        w = width(name)
+        a, b = both(args)
+        if type(a) is int and type(b) is int:
+            return max(0, a - b)
+        return T.ite(w, T.ult(w, a, b), 0, T.sub(w, a, b))
+
+    @reg(r'^core::num::<impl (u8|u16|u32|u64|usize)>::saturating_add$', 'uN::saturating_add')
+    def _sat_add(fr, name, args, ops):
+        w = width(name)
+        a, b = both(args)
+        m = (1 << w) - 1
+        if type(a) is int and type(b) is int:
+            return min(m, a + b)
+        s = T.add(w, a, b)
+        return T.ite(w, T.ult(w, s, a), m, s)
+
+    @reg(r'^core::num::<impl (u8|u16|u32|u64|usize)>::wrapping_(add|sub|mul)$', 'uN::wrapping_*')
+    def _wrapping(fr, name, args, ops):
+        w = width(name)
+        a, b = both(args)
+        op = name.rsplit('_', 1)[1]
+        return {'add': T.add, 'sub': T.sub, 'mul': T.mul}[op](w, a, b)
+
+    @reg(r'^core::num::<impl (u8|u16|u32|u64|usize)>::checked_(add|sub|mul)$', 'uN::checked_*')
+    def _checked(fr, name, args, ops):
+        w = width(name)
+        a, b = both(args)
+        op = name.rsplit('_', 1)[1]
+        if type(a) is int and type(b) is int:
+            r = {'add': a + b, 'sub': a - b, 'mul': a * b}[op]
+            return lib.some(r) if 0 <= r < (1 << w) else lib.none()
+        if op == 'add':
+            r = T.add(w, a, b)
+            ok = T.lnot(T.ult(w, r, a))
+        elif op == 'sub':
+            r = T.sub(w, a, b)
+            ok = T.lnot(T.ult(w, a, b))
+        else:
+            wide = T.mul(2 * w, T.zext(w, 2 * w, a), T.zext(w, 2 * w, b))
+            r = T.trunc(2 * w, w, wide)
+            ok = T.ult(2 * w, wide, 1 << w)
+        return I.mk([T.zext(1, 64, ok), r], 'enum')
+
+    @reg(r'^core::num::<impl (u8|u16|u32|u64|usize)>::(min|max)$|^<(u8|u16|u32|u64|usize) as Ord>::(min|max)$', 'uN::min/max')
+    def _minmax(fr, name, args, ops):
+        m = re.search(r'(u8|u16|u32|u64|usize)', name)
+        w = parse_type(m.group(1)).bits
+        a, b = both(args)
+        if type(a) is int and type(b) is int:
+            return min(a, b) if name.endswith('min') else max(a, b)
+        lt = T.ult(w, b, a)
+        return T.ite(w, lt, b, a) if name.endswith('min') else T.ite(w, lt, a, b)
+
+    @reg(r'^core::num::<impl (u8|u16|u32|u64|usize)>::abs_diff$', 'uN::abs_diff')
+    def _abs_diff(fr, name, args, ops):
+        w = width(name)
+        a, b = both(args)
+        if type(a) is int and type(b) is int:
+            return abs(a - b)
+        return T.ite(w, T.ult(w, a, b), T.sub(w, b, a), T.sub(w, a, b))
+
+    @reg(r'^core::num::<impl (u8|u16|u32|u64|usize)>::div_ceil$', 'uN::div_ceil')
+    def _div_ceil(fr, name, args, ops):
+        w = width(name)
+        a, b = both(args)
+        if type(b) is not int:
+            raise Unsupported('div_ceil by a symbolic divisor')
+        if b == 0:
+            return I.panic(fr, 'attempt to divide by zero')
+        if type(a) is int:
+            return -(-a // b)
+        q = T.udiv(w, a, b)
+        r = T.urem(w, a, b)
+        return T.add(w, q, T.zext(1, w, T.ne(w, r, 0)))
+
+    @reg(r'^core::num::<impl (u8|u16|u32|u64|usize)>::pow$', 'uN::pow')
+    def _pow(fr, name, args, ops):
+        w = width(name)
+        a, e = both(args)
+        e = lib.concrete(e, 'exponent')
+        acc = 1
+        for _ in range(e):
+            if type(acc) is int and type(a) is int:
+                acc = acc * a
+                if acc >= (1 << w):
+                    return I.panic(fr, 'attempt to multiply with overflow')
+            else:
+                wide = T.mul(2 * w, T.zext(w, 2 * w, acc), T.zext(w, 2 * w, a))
+                c = T.ult(2 * w, wide, 1 << w)
+                if type(c) is int:
+                    if not c:
+                        return I.panic(fr, 'attempt to multiply with overflow')
+                else:
+                    I.obligations.append(Obligation(tuple(I.pc), c, 'assert', 'uN::pow', 'attempt to multiply with overflow'))
+                acc = T.trunc(2 * w, w, wide)
+        return acc
+
+    @reg(r'^core::num::<impl (u8|u16|u32|u64|usize)>::(count_ones|count_zeros|leading_zeros|trailing_zeros)$', 'uN::bit counts')
+    def _bits(fr, name, args, ops):
+        w = width(name)
+        a = args[0]
+        fn = name.rsplit('::', 1)[1]
+        if type(a) is int:
+            s = format(a, '0%db' % w)
+            return {'count_ones': s.count('1'), 'count_zeros': s.count('0'), 'leading_zeros': len(s) - len(s.lstrip('0')),
+                    'trailing_zeros': (len(s) - len(s.rstrip('0'))) if a else w}[fn]
+        bits = [T.zext(1, 32, T.extract_bit(w, a, i)) for i in range(w)]
+        if fn in ('count_ones', 'count_zeros'):
+            acc = 0
+            for b_ in bits:
+                acc = T.add(32, acc, b_)
+            return acc if fn == 'count_ones' else T.sub(32, w, acc)
+        order = range(w - 1, -1, -1) if fn == 'leading_zeros' else range(w)
+        res = w
+        for k, i in reversed(list(enumerate(order))):
+            res = T.ite(32, T.extract_bit(w, a, i), k, res)
+        return res
+
+    @reg(r'^core::num::<impl (u8|u16|u32|u64|usize)>::is_power_of_two$', 'uN::is_power_of_two')
+    def _pow2(fr, name, args, ops):
+        w = width(name)
+        a = args[0]
+        if type(a) is int:
+            return 1 if a and not (a & (a - 1)) else 0
+        return T.land(T.ne(w, a, 0), T.eq(w, T.band(w, a, T.sub(w, a, 1)), 0))
+
+    @reg(r'^core::num::<impl (u8|u16|u32|u64|usize)>::rem_euclid$|^core::num::<impl (u8|u16|u32|u64|usize)>::div_euclid$', 'uN::rem_euclid/div_euclid')
+    def _euclid(fr, name, args, ops):
+        w = width(name)
+        a, b = both(args)
+        if type(b) is not int:
+            raise Unsupported('euclidean division by a symbolic divisor')
+        if b == 0:
+            return I.panic(fr, 'attempt to divide by zero')
+        if name.endswith('rem_euclid'):
+            return a % b if type(a) is int else T.urem(w, a, b)
+        return a // b if type(a) is int else T.udiv(w, a, b)
